@@ -19,7 +19,7 @@ CHECKS = {
  "C14": (True,
    "property-based testing / fuzz-style totality check: six input generators (Unicode noise, token soups, mutated and truncated valid statements, all prefixes, deep nesting, invalid-by-construction definitions), proptest, supervised child process",
    "Generated-input search for panics, aborts, hangs, error locations outside the text and unproducible 'near' excerpts; invalid-by-construction definitions must be rejected. Every character prefix of the generated valid statements is tried. The search runs in a supervised child so that stack overflows and hangs are observed and re-judged in isolation. Exploration, not proof.",
-   "Documented nesting bound of the check: depth 200 on an 8 MiB stack. A time-out is reported as inconclusive (exit 2) unless it reproduces twice in isolation.",
+   "Documented nesting bound of the check: depth 200 on an 8 MiB stack. A time-out is reported as inconclusive (exit 2) unless it reproduces twice in isolation. One recorded known finding (F55: operator chains of thousands of terms overflow the stack) is excluded by construction (chains capped at 150 terms) and replayed as a witness in a child process.",
    "DESIGN.md §3 C14"),
  "C17": (True,
    "property-based testing: round trip (rows -> real OutputPrinter -> independent decoder -> rows) over generated ResultRows in text/json/csv",
@@ -74,7 +74,7 @@ CHECKS = {
  "C15": (True,
    "property-based testing: metamorphic relations (permutation invariance of the result table; key-wise combination of the results over every cut of the input)",
    "Generated-input search: order-insensitive aggregate statements over small-domain data with exactly representable REAL sums; the printed table must be identical for 3 permutations of the lines, and for every cut of the input the groups of the whole must be the union of the parts' groups with COUNT/SUM adding and MIN/MAX/BOOL_AND/BOOL_OR combining. Exploration over statements and data, exhaustive over cut points within each case.",
-   "Cut relation only for statements without HAVING; AVG/STDDEV/PERCENTILE/COUNT(DISTINCT) are checked by permutation only.",
+   "Cut relation only for statements without HAVING; AVG/STDDEV/PERCENTILE/COUNT(DISTINCT) are checked by permutation only. One recorded known finding (F56: the overflow check of the running INT sum makes the outcome depend on the line order) is excluded by construction (no INT values next to the 64-bit limits) and replayed as a witness.",
    "DESIGN.md §3 C15"),
  "C16": (True,
    "property-based testing of algebraic laws (trichotomy, antisymmetry, reflexivity, transitivity, agreement of =, <, hashing consumers) observed through queries; bounded-exhaustive over special-value pools",
